@@ -1,2 +1,4 @@
 import Proofs.Slots
 import Proofs.Scan
+import Proofs.Resolve
+import Proofs.Macro
